@@ -243,6 +243,10 @@ func storeBefore(p *Program, in ssa.Instruction, tf string, pat string) bool {
 		var walk func(b *ssa.BasicBlock) bool
 		walk = func(b *ssa.BasicBlock) bool {
 			for _, s := range b.Succs {
+				if s.Dominates(b) && s != target {
+					// a back edge: the next iteration of a loop is about another item
+					continue
+				}
 				if s == target {
 					return true
 				}
@@ -789,15 +793,21 @@ func runUnguardedRules(p *Program, id string) ([]*Gen, []string) {
 					if !ok {
 						continue
 					}
-					if wa := kv["when-arg"]; wa != "" {
-						// only calls whose N-th argument has this shape (when-arg=N:PATTERN)
-						parts := strings.SplitN(wa, ":", 2)
-						var an int
-						fmt.Sscanf(parts[0], "%d", &an)
-						c, isCall := in.(*ssa.Call)
-						if !isCall || len(parts) != 2 || an >= len(c.Call.Args) || !pathMatches(valuePath(c.Call.Args[an]), parts[1]) {
-							continue
+					skipSite := false
+					for _, key := range []string{"when-arg", "when-arg2"} {
+						if wa := kv[key]; wa != "" {
+							// only calls whose N-th argument has this shape (when-arg=N:PATTERN)
+							parts := strings.SplitN(wa, ":", 2)
+							var an int
+							fmt.Sscanf(parts[0], "%d", &an)
+							c, isCall := in.(*ssa.Call)
+							if !isCall || len(parts) != 2 || an >= len(c.Call.Args) || !pathMatches(valuePath(c.Call.Args[an]), parts[1]) {
+								skipSite = true
+							}
 						}
+					}
+					if skipSite {
+						continue
 					}
 					if wm := kv["when-map"]; wm != "" {
 						// only lookups / updates of a map with this access path
@@ -1027,6 +1037,54 @@ func runUnguardedRules(p *Program, id string) ([]*Gen, []string) {
 							if !okAlt {
 								o.Pre = "sat"
 								o.Model = "the key looked up in " + valuePath(lk.X) + " is " + got + ", expected " + kp
+							}
+						}
+					}
+					// what an argument is computed from must have been read AFTER an update (arg-reads-after-store=N:T.f:VALPAT):
+					// every load of field f of a T in the backward cone of argument N comes after (in the same iteration) a
+					// store to that field whose value matches
+					if ar := kv["arg-reads-after-store"]; ar != "" {
+						parts := strings.SplitN(ar, ":", 3)
+						var an int
+						fmt.Sscanf(parts[0], "%d", &an)
+						if c, isCall := in.(*ssa.Call); isCall && len(parts) == 3 && an < len(c.Call.Args) {
+							var loads []ssa.Instruction
+							seenV := map[ssa.Value]bool{}
+							var walk func(v ssa.Value, depth int)
+							walk = func(v ssa.Value, depth int) {
+								if v == nil || seenV[v] || depth > 30 {
+									return
+								}
+								seenV[v] = true
+								if u, ok := v.(*ssa.UnOp); ok && u.Op == token.MUL {
+									if fa, ok := u.X.(*ssa.FieldAddr); ok {
+										if pt, ok := fa.X.Type().Underlying().(*types.Pointer); ok {
+											if n, ok := pt.Elem().(*types.Named); ok {
+												if st, ok := n.Underlying().(*types.Struct); ok && n.Obj().Name()+"."+st.Field(fa.Field).Name() == parts[1] {
+													loads = append(loads, u)
+												}
+											}
+										}
+									}
+								}
+								if instr, ok := v.(ssa.Instruction); ok {
+									for _, op := range instr.Operands(nil) {
+										if op != nil && *op != nil {
+											walk(*op, depth+1)
+										}
+									}
+								}
+							}
+							walk(c.Call.Args[an], 0)
+							if len(loads) == 0 {
+								o.Pre = "sat"
+								o.Model = fmt.Sprintf("argument %d (%s) is not computed from a read of %s", an, valuePath(c.Call.Args[an]), parts[1])
+							}
+							for _, ld := range loads {
+								if !storeBefore(p, ld, parts[1], parts[2]) {
+									o.Pre = "sat"
+									o.Model = fmt.Sprintf("argument %d (%s) is computed from a read of %s that no store of %s can precede: the update comes too late for it", an, valuePath(c.Call.Args[an]), parts[1], parts[2])
+								}
 							}
 						}
 					}
